@@ -30,8 +30,20 @@ META = {
 
 
 # ------------------------------------------------------------------ native / E1 end-to-end check
+_DIR_CALLS = [0]
+
+
 def _dir(up):
-    return 'up' if up else 'down'
+    """The direction as a caller may hold it: the literal, or an equal string that was computed (read from a file, lower-cased,
+    joined) and is therefore another object than kernpy's own constant."""
+    _DIR_CALLS[0] += 1
+    word = 'up' if up else 'down'
+    k = _DIR_CALLS[0] % 3
+    if k == 1:
+        return ''.join(list(word))          # equal, not identical
+    if k == 2:
+        return (' ' + word.upper()).lower().strip()
+    return word
 
 
 def ob_b(letter: int, alt: int, octave: int, iv: int, up: bool) -> bool:
